@@ -11,6 +11,7 @@ from torch import Tensor
 from linear_operator.operators._linear_operator import IndexType, LinearOperator
 from linear_operator.operators.diag_linear_operator import ConstantDiagLinearOperator
 from linear_operator.operators.zero_linear_operator import ZeroLinearOperator
+from linear_operator.utils.broadcasting import _matmul_broadcast_shape
 
 from linear_operator.utils.generic import _to_helper
 from linear_operator.utils.getitem import _compute_getitem_size, _is_noop_index
@@ -55,6 +56,8 @@ class IdentityLinearOperator(ConstantDiagLinearOperator):
         return self._device
 
     def _maybe_reshape_rhs(self, rhs: Union[torch.Tensor, LinearOperator]) -> Union[torch.Tensor, LinearOperator]:
+        # I @ rhs is rhs only if rhs has the right number of rows
+        _matmul_broadcast_shape(self.shape, rhs.shape)
         if self._batch_shape != rhs.shape[:-2]:
             batch_shape = torch.broadcast_shapes(rhs.shape[:-2], self._batch_shape)
             return rhs.expand(*batch_shape, *rhs.shape[-2:])
@@ -105,12 +108,6 @@ class IdentityLinearOperator(ConstantDiagLinearOperator):
         self: Float[LinearOperator, "*batch M N"], other: Union[float, torch.Tensor]
     ) -> Float[LinearOperator, "*batch M N"]:
         return ConstantDiagLinearOperator(self.diag_values * other, diag_shape=self.diag_shape)
-
-    def _mul_matrix(
-        self: Float[LinearOperator, "... #M #N"],
-        other: Union[Float[torch.Tensor, "... #M #N"], Float[LinearOperator, "... #M #N"]],
-    ) -> Float[LinearOperator, "... M N"]:
-        return other
 
     def _permute_batch(self, *dims: int) -> LinearOperator:
         batch_shape = self.diag_values.permute(*dims, -1).shape[:-1]
@@ -192,6 +189,7 @@ class IdentityLinearOperator(ConstantDiagLinearOperator):
         if inv_quad_rhs is None:
             inv_quad_term = torch.empty(0, dtype=self.dtype, device=self.device)
         else:
+            _matmul_broadcast_shape(self.shape, inv_quad_rhs.shape)
             rhs_batch_shape = inv_quad_rhs.shape[1 + self.batch_dim :]
             inv_quad_term = inv_quad_rhs.mul(inv_quad_rhs).sum(-(1 + len(rhs_batch_shape)))
             if reduce_inv_quad:
